@@ -258,7 +258,7 @@ class Updim(Matrix):
         return Updim(*self._affine, not self.isflipped)
 
     def swapdown(self, other):
-        if isinstance(other, TensorChild):
+        if isinstance(other, (TensorChild, SimplexChild)):
             return ScaledUpdim(other, self), Identity(self.fromdims)
 
 
